@@ -16,6 +16,7 @@ rejection (the generator guarantees that), so the order in which an
 implementation tests several simultaneous defects is never part of the oracle.
 """
 import copy
+from urllib.parse import unquote
 import re
 
 import os_resource_classes as orc
@@ -48,6 +49,19 @@ def ver(s):
         return LATEST
     a, b = s.split('.')
     return (int(a), int(b))
+
+
+def json_acceptable(accept):
+    """Does this Accept header admit application/json (q > 0)?"""
+    for part in accept.split(','):
+        bits = [b.strip() for b in part.split(';')]
+        q = 1.0
+        for b in bits[1:]:
+            if b.startswith('q='):
+                q = float(b[2:])
+        if bits[0] in ('application/json', '*/*', 'application/*') and q > 0:
+            return True
+    return False
 
 
 def canon_uuid(u):
@@ -179,6 +193,16 @@ class Model(object):
     # dispatch
     # ======================================================================
     def apply(self, op):
+        exp = self._apply(op)
+        acc = (op.get('h') or {}).get('accept')
+        if acc and op['m'] == 'GET' and exp.status == 200 and \
+                not json_acceptable(acc):
+            # every read route that answers with a document checks Accept
+            # before anything else it does
+            return Expect(406)
+        return exp
+
+    def _apply(self, op):
         if op.get('defect') == 'schema':
             # the document violates the published JSON schema of the route:
             # 400, nothing changes (the generator breaks otherwise valid
@@ -193,7 +217,7 @@ class Model(object):
             for part in qs.split('&'):
                 if part:
                     k, _, val = part.partition('=')
-                    q[k] = val
+                    q[k] = unquote(val) if k == 'name' else val
         seg = [s for s in path.split('/') if s]
         b = op.get('b')
         if seg[0] == 'resource_providers':
